@@ -342,14 +342,17 @@ fn clones_case<K: El, V: El>(cfg: &Cfg, rng: &mut Rng, rep: &mut Report, tag: &s
     let src_split = a.state().old.as_ref().map_or(false, |o| o.table.len > 0);
     // destination: its own history, own hasher
     let dbh = Bh::new(*rng.pick(&[HMode::Good, HMode::Identity, HMode::SameTag]), 10 + rng.below(8));
-    let mut b: Mon<K, V> = Mon::new(*rng.pick(&[usize::MAX, 0, 7, 28, 100]), dbh);
+    let (src_main, src_total) = (a.state().main.len, a.map.len());
+    let dcap = *rng.pick(&[usize::MAX, 0, 7, 28, 100, src_main, src_main + 1, src_main.saturating_sub(1), (src_main + src_total) / 2, src_total.saturating_sub(1)]);
+    let fresh_dest = rng.chance(1, 3);
+    let mut b: Mon<K, V> = Mon::new(dcap, dbh);
     b.conserve = false;
     b.alloc_checks = false;
     b.focus = cfg.focus;
     let use_clone_from = rng.chance(2, 3);
     let mut ops_b = Vec::new();
     let mut dst_split = false;
-    if fail.is_none() && use_clone_from {
+    if fail.is_none() && use_clone_from && !fresh_dest {
         let mut gb = Gen::new(rng.next(), Profile::General, 100, 0, 300);
         gb = gb.with_script(vec![*rng.pick(&[Dir::FillToFull, Dir::InsertNew(3), Dir::InsertNew(0), Dir::InsertNew(60)]), Dir::InsertNew(rng.usize(5)), Dir::RemoveMain(rng.usize(3))]);
         while let Some(op) = gb.next_op(&b) {
